@@ -490,7 +490,14 @@ class TraitList(list):
             If true, the resulting list will be sorted in descending order.
         """
         removed = self.copy()
-        super().sort(key=key, reverse=reverse)
+        try:
+            super().sort(key=key, reverse=reverse)
+        except BaseException:
+            # A sort that fails (e.g. items that cannot be compared) may
+            # leave the list partially re-ordered: that is a change too.
+            if removed != self:
+                self.notify(0, removed, self.copy())
+            raise
         if removed:
             self.notify(0, removed, self.copy())
 
